@@ -74,6 +74,12 @@ func (s BasicPrivateTokenRequestState) FinalizeToken(tokenResponseEnc []byte) (t
 
 // https://ietf-wg-privacypass.github.io/base-drafts/caw/pp-issuance/draft-ietf-privacypass-protocol.html#name-issuance-protocol-for-publi
 func (c BasicPrivateClient) CreateTokenRequest(challenge, nonce []byte, tokenKeyID []byte, verificationKey *oprf.PublicKey) (BasicPrivateTokenRequestState, error) {
+	// The token has fixed-width fields: with a nonce or key ID of another length the finalized token would neither
+	// carry the request's values nor verify
+	if len(nonce) != 32 || len(tokenKeyID) != 32 {
+		return BasicPrivateTokenRequestState{}, fmt.Errorf("invalid nonce or token key ID length")
+	}
+
 	client := oprf.NewVerifiableClient(oprf.SuiteP384, verificationKey)
 
 	context := sha256.Sum256(challenge)
@@ -111,6 +117,12 @@ func (c BasicPrivateClient) CreateTokenRequest(challenge, nonce []byte, tokenKey
 }
 
 func (c BasicPrivateClient) CreateTokenRequestWithBlind(challenge, nonce []byte, tokenKeyID []byte, verificationKey *oprf.PublicKey, blindEnc []byte) (BasicPrivateTokenRequestState, error) {
+	// The token has fixed-width fields: with a nonce or key ID of another length the finalized token would neither
+	// carry the request's values nor verify
+	if len(nonce) != 32 || len(tokenKeyID) != 32 {
+		return BasicPrivateTokenRequestState{}, fmt.Errorf("invalid nonce or token key ID length")
+	}
+
 	client := oprf.NewVerifiableClient(oprf.SuiteP384, verificationKey)
 
 	context := sha256.Sum256(challenge)
